@@ -32,6 +32,7 @@ def main():
         traceback.print_exc()
         print('HARNESS-ERROR property=%s' % pid)
         rc = 2
+        par.shutdown(force=True)
     finally:
         par.shutdown()
     sys.stdout.flush()
